@@ -272,8 +272,10 @@ CheckCb(tk, e, tk2) ==
     \cup V0(e.sid = e.s, "C06", "control.stateId() is not the callback's own state id")
     \cup V0(e.cact = e.mia, "C06", "control.isActive(id) disagrees with the machine's own isActive(id)")
     \cup V0(e.ctx = 1, "C06", "control.context() is not the machine's context object")
-    \cup V(IsPhase(tk.dm) /\ IsPhase(e.m) /\ tk.dpos > 0 => e.req = tk.lastreq,
+    \cup V(IsPhase(tk.dm) /\ IsPhase(e.m) /\ tk.dpos > 0 => e.req[1] = tk.lastreq[1] /\ e.req[2] = tk.lastreq[2],
            "C06", "control.request() does not show the request made in the preceding callback")
+    \cup V(IsPhase(tk.dm) /\ IsPhase(e.m) /\ tk.dpos > 0 /\ e.req[1] = tk.lastreq[1] /\ e.req[2] = tk.lastreq[2] => e.req[3] = tk.lastreq[3],
+           "C07", "the outstanding request does not carry the payload it was made with")
     \cup V(IsGuard(e.m) /\ (proc \/ actv) /\ FullObs => e.cur = survNow,
            "C06", "currentTransition() is not the transition accepted so far in this processing step")
     \cup V0(e.mact2 = e.mact, "C02", "the active state changed while a callback was making requests")
@@ -281,7 +283,7 @@ CheckCb(tk, e, tk2) ==
     \* ---- payload integrity
     \cup V0(e.req[3] # 999 /\ e.cur[3] # 999 /\ e.pend[3] # 999 /\ \A q \in 1 .. Len(e.plan) : e.plan[q][3] # 999,
            "C07", "a payload shown to a callback does not carry the bytes of any payload that was supplied")
-    \cup V(rstart /\ proc /\ FullObs /\ (HasHead \/ ~step) /\ e.pend[1] = ExpectedPend(tk, tk2)[1] /\ e.pend[2] = ExpectedPend(tk, tk2)[2]
+    \cup V(rstart /\ proc /\ FullObs /\ (~step \/ (HasHead /\ tk2.fired # <<>>)) /\ e.pend[1] = ExpectedPend(tk, tk2)[1] /\ e.pend[2] = ExpectedPend(tk, tk2)[2]
              => e.pend[3] = ExpectedPend(tk, tk2)[3],
            "C07", "the pending transition shown to the guards does not carry the payload supplied with that request")
     \cup V(IsLife(e.m) /\ e.s # NONE /\ proc /\ FullObs /\ e.cur[1] = survNow[1] /\ e.cur[2] = survNow[2] => e.cur[3] = survNow[3],
@@ -297,7 +299,7 @@ CheckCb(tk, e, tk2) ==
     \cup V(tk.logger /\ start =>
              \A q \in 1 .. (Len(e.pre) - 1) :
                 \/ e.pre[q][1] = "m" /\ SubOrder(e.pre[q][3], e.pre[q][2]) = <<>>
-                \/ e.pre[q][1] = "t" /\ ((step /\ \E z \in 1 .. Len(tk2.fired) : <<e.pre[q][2], e.pre[q][3]>> = <<tk2.fired[z][1], tk2.fired[z][2]>>)
+                \/ e.pre[q][1] = "t" /\ ((step /\ \E z \in 1 .. Len(pb) : <<e.pre[q][2], e.pre[q][3]>> = <<pb[z][1], pb[z][2]>>)
                                           \/ (tk.stage = "pre" /\ tk.op \in {"ito", "iwith"} /\ e.pre[q][2] = NONE /\ e.pre[q][3] = tk.oa)),
            "C16", "a log record does not correspond to a delivery or action happening at that moment")
     \cup V0(tk.logger => \A q \in 1 .. Len(e.acts) :
@@ -331,6 +333,7 @@ CheckCb(tk, e, tk2) ==
     \cup V(tk.ent # NONE /\ e.m # M_ENTER => e.mact = tk.ent /\ e.mia = <<tk.ent>>, "C01", "activeStateId()/isActive() do not name the state whose enter() ran last without exit()")
     \* ---- C02 / C03 / C04: guard rounds
     \cup V(rstart /\ proc => \/ (e.pend[1] = ExpectedPend(tk, tk2)[1] /\ e.pend[2] = ExpectedPend(tk, tk2)[2])
+                              \/ (step /\ \E q \in 1 .. Len(pb) : pb[q] = e.pend /\ pb[q][1] = a0)      \* issued by a task (C08 decides whether rightly)
                               \/ (~HasHead /\ step /\ ((e.pend[1] = tk.lastreq[1] /\ e.pend[2] = tk.lastreq[2])
                                                         \/ \E q \in 1 .. Len(pb) : pb[q] = e.pend /\ pb[q][1] = a0)),    \* plan outcomes are invisible without a head
            "C02", "the transition being evaluated is not the most recent request")
@@ -364,6 +367,9 @@ CheckCb(tk, e, tk2) ==
            "C08", "a task fired whose origin is not the active state with an outstanding success, or past a task of another origin")
     \cup V(step /\ HasHead /\ ~IsPlanCb(e.m) => \A q \in 1 .. Len(pos) : pb[pos[q]][1] = pb[pos[q]][2] => \A z \in 1 .. Len(pos) : pos[z] <= pos[q],
            "C08", "a success report fired further tasks after a cyclic task had consumed it")
+    \cup V(step /\ HasHead /\ rstart /\ proc /\ pos = <<>> /\ ~(e.pend[1] = tk.lastreq[1] /\ e.pend[2] = tk.lastreq[2])
+             => ~\E q \in 1 .. Len(pb) : pb[q] = e.pend /\ pb[q][1] = a0,
+           "C08", "a task issued its transition but was not removed from the plan")
     \cup V(step /\ HasHead /\ pb # <<>> /\ pb[1][1] = a0 /\ a0 \in tk.succ /\ tk.fail = {} /\ tk.sawF = {} => ~IsPlanCb(e.m) /\ pos # <<>> /\ pos[1] = 1,
            "C08", "the first task did not fire although its origin is active and reported success without failures")
     \cup V(~step /\ ~IsPlanCb(e.m) /\ rstart /\ proc /\ tk.op \in {"update", "react"} /\ tk.stepDone /\ tk.rounds = 0 /\ tk.outcome = 2
@@ -415,7 +421,7 @@ CheckRet(tk, e, tk2) ==
     \cup V(tk.logger =>
              \A q \in 1 .. Len(e.pre) :
                 \/ e.pre[q][1] = "m" /\ SubOrder(e.pre[q][3], e.pre[q][2]) = <<>>
-                \/ e.pre[q][1] = "t" /\ ((step /\ \E z \in 1 .. Len(tk2.fired) : <<e.pre[q][2], e.pre[q][3]>> = <<tk2.fired[z][1], tk2.fired[z][2]>>)
+                \/ e.pre[q][1] = "t" /\ ((step /\ \E z \in 1 .. Len(pb) : <<e.pre[q][2], e.pre[q][3]>> = <<pb[z][1], pb[z][2]>>)
                                           \/ (tk.op \in {"to", "with", "ito", "iwith"} /\ e.pre[q][2] = NONE /\ e.pre[q][3] = tk.oa))
                 \/ e.pre[q][1] = "s" /\ tk.op \in {"succeed", "fail"},
            "C16", "a log record does not correspond to a delivery or action happening at that moment")
@@ -482,6 +488,7 @@ CheckOther(tk, e, tk2) ==
     ELSE IF e.e \in {"crash", "truncated", "garbled"}
     THEN V0(FALSE, "C04", "the call did not return (crash, hang or runaway)")
       \cup V0(~(HasPay /\ tk.incall /\ (tk.lastreq[3] # 0 \/ tk.rpend[3] # 0 \/ tk.surv[3] # 0 \/ tk.opp # 0)), "C07", "crash while a payload-carrying transition was in flight")
+      \cup V0(~(e.e = "crash" /\ HasPay /\ e.sig \in {7, 11} /\ e.pay \in {3, 4, 5}), "C07", "memory fault in a configuration whose payload type needs alignment > 1")
     ELSE {}
 
 RawChecks(tk, e, tk2) ==
